@@ -44,7 +44,7 @@ def _id(host, realm):
     return [(264, 0x40, None, _b(host)), (296, 0x40, None, _b(realm))]
 
 
-def cer(hbh=0x01010101, e2e=0x02020202, host=None, realm=None, drop=None, apps=(S6A,), dup=None, extra=()):
+def cer(hbh=0x01010101, e2e=0x02020202, host=None, realm=None, drop=None, apps=(S6A,), dup=None, extra=(), flags=0x80):
     avps = _id(host or PEER["host"], realm or PEER["realm"]) + [
         (257, 0x40, None, b"\x00\x01\x7f\x00\x00\x02"), (266, 0x40, None, (0).to_bytes(4, "big")),
         (269, 0x00, None, b"peer-product")]
@@ -56,7 +56,7 @@ def cer(hbh=0x01010101, e2e=0x02020202, host=None, realm=None, drop=None, apps=(
                                        (258, 0x40, None, a.to_bytes(4, "big"))]))
     if drop is not None:
         avps = [a for a in avps if a[0] != drop]
-    return refcodec.enc_msg((1, 0x80, 257, 0, hbh, e2e, avps))
+    return refcodec.enc_msg((1, flags, 257, 0, hbh, e2e, avps))
 
 
 def cea(hbh, e2e, host=None, realm=None, drop=None, result=2001, apps=(S6A,), dup=None, extra=()):
@@ -71,11 +71,11 @@ def cea(hbh, e2e, host=None, realm=None, drop=None, result=2001, apps=(S6A,), du
     return refcodec.enc_msg((1, 0x00, 257, 0, hbh, e2e, avps))
 
 
-def dwr(hbh, e2e, host=None, realm=None, dup=None):
+def dwr(hbh, e2e, host=None, realm=None, dup=None, flags=0x80):
     avps = _id(host or PEER["host"], realm or PEER["realm"])
     if dup is not None:
         avps += [a for a in avps if a[0] == dup]
-    return refcodec.enc_msg((1, 0x80, 280, 0, hbh, e2e, avps))
+    return refcodec.enc_msg((1, flags, 280, 0, hbh, e2e, avps))
 
 
 def dwa(hbh, e2e, host=None, realm=None, result=2001):
@@ -83,8 +83,8 @@ def dwa(hbh, e2e, host=None, realm=None, result=2001):
                              + _id(host or PEER["host"], realm or PEER["realm"])))
 
 
-def dpr(hbh, e2e, host=None, realm=None, cause=0):
-    return refcodec.enc_msg((1, 0x80, 282, 0, hbh, e2e, _id(host or PEER["host"], realm or PEER["realm"])
+def dpr(hbh, e2e, host=None, realm=None, cause=0, flags=0x80):
+    return refcodec.enc_msg((1, flags, 282, 0, hbh, e2e, _id(host or PEER["host"], realm or PEER["realm"])
                              + [(273, 0x40, None, cause.to_bytes(4, "big"))]))
 
 
